@@ -515,8 +515,14 @@ def run_check(mod, prop: str, tier: str, seed: int) -> int:
         "wall_s": round(wall, 2),
         "violations": violations,
     }
-    os.makedirs(os.path.join(VERIF, "evidence"), exist_ok=True)
-    with open(os.path.join(VERIF, "evidence", f"{prop}.json"), "w") as f:
+    # evidence/<id>.json describes runs against /repo itself; a run pointed at another checkout
+    # (VERIF_REPO=<scratch worktree>, used to try seeded changes) records under evidence/other/ instead
+    evdir = os.path.join(VERIF, "evidence")
+    if os.path.realpath(REPO) != os.path.realpath("/repo"):
+        evdir = os.path.join(evdir, "other")
+        ev["repo"] = REPO
+    os.makedirs(evdir, exist_ok=True)
+    with open(os.path.join(evdir, f"{prop}.json"), "w") as f:
         json.dump(ev, f, indent=1, default=str)
         f.write("\n")
     print(
